@@ -54,8 +54,11 @@ def r171(ctx, repo):
     hexd = find_calls(call, attr="hexdigest")
     if not hexd:
         raise AnalysisError("Cache.__call__: hexdigest lost")
-    first_hex = min(h.lineno for h in hexd)
-    upd = [u for u in upd if u.lineno < first_hex]
+    # document order (robust against inlined helpers, whose statements all
+    # carry the line of the call)
+    order = {id(n): i for i, n in enumerate(walk(call))}
+    first_hex = min(order[id(h)] for h in hexd)
+    upd = [u for u in upd if order[id(u)] < first_hex]
 
     def in_loop_over(u, pred):
         n = u
